@@ -37,8 +37,6 @@ LEVEL = "model_checking"
 
 SITE_NAME = {"file": "offsetDB.save", "generic": "offset.Save"}
 SYSCALLS = "openat,write,fsync,fdatasync,rename,renameat,renameat2,close,unlink,unlinkat"
-STEP_SYSCALL = {"open": ("openat",), "write": ("write",), "sync": ("fsync", "fdatasync"),
-                "rename": ("renameat", "rename", "renameat2"), "close": ("close",)}
 SYMS = {1: b"a", 2: b":", 3: b" ", 4: b"\n", 5: b"-", 6: "\u00e9".encode()}
 NUMS = {0: 0, 1: 1, 2: 2, 63: 2 ** 63 - 1, 64: 2 ** 64 - 1}
 
@@ -142,7 +140,7 @@ def fault_shape(s):
     return tuple(tuple(sorted(st["fails"])) for st in s["steps"] if st["op"] == "save")
 
 
-def pick_schedules(ctx, exported, limit, must_shapes=()):
+def pick_schedules(ctx, exported, limit):
     """distinct schedules; keep every distinct fault shape at least once, fill up with a seeded sample"""
     uniq = {}
     for s in exported:
@@ -155,9 +153,6 @@ def pick_schedules(ctx, exported, limit, must_shapes=()):
     chosen = []
     for shape in sorted(by_shape):
         chosen.append(by_shape[shape][0])
-    for shape in must_shapes:
-        if shape not in by_shape:
-            raise vlib.Infra("schedule shape %r of the faithful counterexample not among the exported schedules" % (shape,))
     rest = [k for k in allk if k not in set(chosen)]
     chosen += rest[:max(0, limit - len(chosen))]
     return [uniq[k] for k in chosen], len(uniq), len(by_shape)
@@ -330,7 +325,11 @@ def analyse(calls, workdir):
     if init is None or not any(e["op"] == "mark" and e["mark"][0] == "done" for e in events):
         raise Inconclusive("scenario did not run to its end")
     payloads[0] = init
-    return {"events": events, "payloads": payloads, "injected": injected, "pre": pre}
+    try:
+        final_cur = open(cur, "rb").read()
+    except FileNotFoundError:
+        final_cur = None
+    return {"events": events, "payloads": payloads, "injected": injected, "pre": pre, "final_cur": final_cur}
 
 
 def find_targets(an, faults):
@@ -391,11 +390,16 @@ def run_scenario(ctx, bins, sc, idx):
     faults.sort(key=lambda f: (f[0], order[f[1]]))
     runs = [0]
 
-    def attempt(inject, pre_like=None, tries=10):
-        """one run; when pre_like is given, repeat until the scenario ran on a thread with the same history of
-        system calls before the observed part (the thread-local ordinals of `inject` were computed for that history)"""
+    def attempt(rel_targets, guess, tries=12):
+        """rel_targets: [(syscall, ordinal relative to the start of the observed part, window, step)].  strace counts
+        per thread, and which thread runs the scenario (hence how many such calls it made before the observed part)
+        varies from run to run: inject for the guessed history, and when the run turns out to have had a different
+        one, adopt that as the next guess."""
         last = None
         for _ in range(tries):
+            inject = inject_args([(nm_, guess.get(nm_, 0) + rel, w, st) for (nm_, rel, w, st) in rel_targets]) if rel_targets else []
+            if inject is None:
+                return None, guess
             try:
                 rc, out, calls = run_strace(ctx, binary, test, script, wd, inject)
                 runs[0] += 1
@@ -403,30 +407,29 @@ def run_scenario(ctx, bins, sc, idx):
             except Inconclusive as e:
                 last = e
                 continue
-            names = {i.split(":")[0] for i in inject}
-            if pre_like is not None and any(an["pre"].get(k, 0) != pre_like.get(k, 0) for k in names):
+            names = {t[0] for t in rel_targets}
+            if any(an["pre"].get(k, 0) != guess.get(k, 0) for k in names):
                 last = Inconclusive("scenario ran on a thread with a different history")
+                guess = dict(an["pre"])
                 continue
-            return an
+            return an, guess
         raise last or Inconclusive("no run")
 
     last = None
     for round_ in range(3):
         try:
-            an = attempt([])
-            pre = an["pre"]
-            targets = []
+            an, guess = attempt([], {})
+            guess = dict(an["pre"])
+            rel_targets = []
             for n, fault in enumerate(faults):
                 tg = find_targets(an, [fault])
                 if tg is None:
                     return {"sc": sc, "an": None, "skip": "step %r does not occur" % (fault,), "runs": runs[0]}
-                # ordinal relative to this run's thread history, re-based on the reference history `pre`
                 name, ordn, win, step = tg[0]
-                targets.append((name, ordn - an["pre"].get(name, 0) + pre.get(name, 0), win, step))
-                ia = inject_args(targets)
-                if ia is None:
+                rel_targets.append((name, ordn - an["pre"].get(name, 0), win, step))
+                an, guess = attempt(rel_targets, guess)
+                if an is None:
                     return {"sc": sc, "an": None, "skip": "more than two faults of one system call", "runs": runs[0]}
-                an = attempt(ia, pre)
                 stray = [i for i in an["injected"] if i[2] is None]
                 if injected_hits(an) != sorted(faults[:n + 1]) or stray:
                     raise Inconclusive("injection hit %r (+%d stray), wanted %r" % (injected_hits(an), len(stray), faults[:n + 1]))
@@ -588,13 +591,15 @@ def run(ctx):
     vlib.log("round trip: %d tables through the real save+load, %d do not come back" % (len(tables), rt_bad))
 
     # ---------------------------------------------------------------- 4. scenarios under strace (T)
-    lim_f, lim_g = (90, 30) if quick else (1500, 300)
-    d6_shape = None
+    lim_f, lim_g = (90, 30) if quick else (5000, 2500)
     chosen_f, uniq_f, shapes_f = pick_schedules(ctx, file_sched, lim_f)
+    # the fault schedule of the faithful configuration's counterexample (D6) must be among the replayed ones
+    if d6_steps and not any(set(st["fails"]) == d6_steps for s in chosen_f for st in s["steps"] if st["op"] == "save"):
+        raise vlib.Infra("the D6 counterexample's fault schedule %r is not among the exported schedules" % sorted(d6_steps))
     chosen_g, uniq_g, shapes_g = pick_schedules(ctx, gen_sched, lim_g)
     scen = [file_scenario(s, False) for s in chosen_f]
     # persistence_mode=sync: every commit saves; a sample of the same schedules
-    scen += [file_scenario(s, True) for s in chosen_f[:(20 if quick else 200)]]
+    scen += [file_scenario(s, True) for s in chosen_f[:(20 if quick else 500)]]
     scen += [generic_scenario(s) for s in chosen_g]
     if getattr(ctx, "replay", None):
         scen = [r["scenario"] for r in json.load(open(ctx.replay)) if "scenario" in r] or scen
@@ -724,6 +729,22 @@ def run(ctx):
                     prefix_cache[ck] = [cid(site, cat(x["base"]))] + [cid(site, full[:n]) for n in range(lo, len(full) + 1)]
                 for c2 in prefix_cache[ck]:
                     add(k, "crash", taint, c2)
+    # sanity of the observation itself: the modelled live content at the end of a trace must be the real file
+    lost_track = 0
+    for i, r in enumerate(done):
+        an = r["an"]
+        ks = [k for k in range(1, len(an["events"]) + 1) if (i, k) in step_desc]
+        if not ks:
+            continue
+        d = step_desc[(i, ks[-1])]
+        ino = {x["ino"]: x for x in d["inodes"]}
+        model = None if d["now"] == 0 else b"".join(an["payloads"][w] for w in ino[d["now"]]["vol"])
+        if model != an["final_cur"]:
+            lost_track += 1
+    if lost_track:
+        ctx.drift += 1
+        vlib.log("MODEL-DRIFT: in %d of %d traces the offsets file on disk at the end is not what the traced system calls "
+                 "produce in the file-system model (an unmodelled system call is in use)" % (lost_track, len(done)))
     loadres = {}
     for site, test, binary in (("file", "TestVerifC07Load", bins["file"]), ("generic", "TestVerifC07OffsetLoad", bins["generic"])):
         if not contents[site]:
@@ -820,7 +841,9 @@ def run(ctx):
             nt.add(("table", json.dumps(tb["jobs"])))
     ctx.nontrivial = nt
     ctx.traces_validated += len(tables)
-    ctx.exhaustive = not quick
+    # every table and every fault shape is executed; of the schedules that differ only in which job/stream commits
+    # where, a seeded sample unless the limit covers them all
+    ctx.exhaustive = len(chosen_f) == uniq_f and len(chosen_g) == uniq_g
     ctx.rule = ("(a) round trip: every job table TLC enumerates from OffsetsFormat.tla (%d; names over {a : space newline - e-acute} "
                 "incl. the empty name, offsets 0/1/2^63-1, ids 1/2^64-1) through the real save and a fresh real load; non-trivial = "
                 "table outside the D8 class with at least one special character in a stream name.  (b) protocol: %d distinct "
